@@ -25,10 +25,6 @@ Definition table_dump : list (N * N * list (N * N * N * N * N * N) * list (N * N
                  match opt_units (tb_opt t) with Some us => map unit_dump us | None => [] end)) ts24501_tables.
 
 (* ---- the library's message in reference vocabulary *)
-Definition sent_body (x:nf_field) (v:fval) : bytes :=
-  match w_body (nf_fmt x) with WUpto _ => firstn (N.to_nat (fv_len v)) (fv_body v) | _ => fv_body v end.
-Definition ref_view (x:nf_field) (v:fval) : fval :=
-  mk_fval true (if nf_opt x then nf_iei x else 0) (fv_len v) (sent_body x v).
 
 Fixpoint view_fields (nf:list nf_field) (m:msg) (opt:bool) : list fval :=
   match nf, m with
